@@ -130,3 +130,62 @@ Lemma mask_octet_table :
      if N.of_nat p <=? 8 * N.of_nat i then m =? 0
      else if 8 <=? k then m =? 255 else m =? 256 - 2 ^ (8 - k)) (seq 0 4)) (seq 0 33) = true.
 Proof. vm_compute. reflexivity. Qed.
+
+(* ---- the octet-wise mask comparison IS the numeric prefix comparison ---- *)
+From KM Require Import Base.Tactics.
+
+Definition num (a0 a1 a2 a3 : N) : N := a0 * 16777216 + a1 * 65536 + a2 * 256 + a3.
+Definition bnum (b : netblock) : N := num (o0 b) (o1 b) (o2 b) (o3 b).
+
+(* x land (256 - 2^k) keeps the top 8-k bits of a byte *)
+Lemma land_himask_table :
+  forallb (fun x => forallb (fun k =>
+     N.land (N.of_nat x) (256 - 2 ^ (N.of_nat k)) =? (N.of_nat x / 2 ^ (N.of_nat k)) * 2 ^ (N.of_nat k))
+     (seq 0 9)) (seq 0 256) = true.
+Proof. vm_compute. reflexivity. Qed.
+
+Lemma land_himask x k : x < 256 -> k <= 8 -> N.land x (256 - 2 ^ k) = (x / 2 ^ k) * 2 ^ k.
+Proof.
+  intros Hx Hk.
+  pose proof land_himask_table as T. rewrite forallb_forall in T.
+  specialize (T (N.to_nat x)). rewrite N2Nat.id in T.
+  assert (In (N.to_nat x) (seq 0 256)) as I by (apply in_seq; lia).
+  specialize (T I). rewrite forallb_forall in T.
+  specialize (T (N.to_nat k)). rewrite N2Nat.id in T.
+  apply N.eqb_eq, T. apply in_seq. lia.
+Qed.
+
+Lemma land_255 x : x < 256 -> N.land x 255 = x.
+Proof.
+  intros H. change 255 with (N.ones 8). rewrite N.land_ones. apply N.mod_small. exact H.
+Qed.
+
+Theorem contains_numeric b a0 a1 a2 a3 :
+  plen b <= 32 -> o0 b < 256 -> o1 b < 256 -> o2 b < 256 -> o3 b < 256 ->
+  a0 < 256 -> a1 < 256 -> a2 < 256 -> a3 < 256 ->
+  (contains b (V4 a0 a1 a2 a3) = true <->
+   bnum b / 2 ^ (32 - plen b) = num a0 a1 a2 a3 / 2 ^ (32 - plen b)).
+Proof.
+  destruct b as [b0 b1 b2 b3 p]. unfold bnum, num, contains. cbn [plen o0 o1 o2 o3].
+  intros Hp B0 B1 B2 B3 A0 A1 A2 A3.
+  rewrite !andb_true_iff, !N.eqb_eq.
+  apply le32_cases in Hp. cbn [map seq N.of_nat Pos.of_succ_nat Pos.succ] in Hp.
+  repeat (destruct Hp as [<-|Hp]; [
+    eval_closed;
+    rewrite ?N.land_0_r, ?(land_255 _ B0), ?(land_255 _ B1), ?(land_255 _ B2), ?(land_255 _ B3),
+            ?(land_255 _ A0), ?(land_255 _ A1), ?(land_255 _ A2), ?(land_255 _ A3);
+    repeat match goal with
+    | |- context [N.land ?x ?m] =>
+        match m with
+        | 0 => fail 1 | 255 => fail 1
+        | _ => let k := eval vm_compute in (N.log2 (256 - m)) in
+               replace (N.land x m) with ((x / 2 ^ k) * 2 ^ k)
+                 by (symmetry; apply (land_himask x k); [assumption | vm_compute; discriminate])
+        end
+    end;
+    match goal with |- context [2 ^ ?e] => idtac end;
+    repeat match goal with |- context [2 ^ ?e] =>
+       let v := eval vm_compute in (2 ^ e) in change (2 ^ e) with v end;
+    lia |]).
+  destruct Hp.
+Qed.
